@@ -142,6 +142,25 @@ def run_script(ctx, script, mode_args=("-s", "-e")):
     return res
 
 
+def replay_script(ctx, script):
+    """type the prompt lines of a replay file and compare the state after the last one with the expectation recorded in it"""
+    typed = b"".join(txt(s["typed"]).encode("utf-8", "surrogateescape") for s in script["steps"]) + b"q!\n"
+    work = tempfile.mkdtemp(prefix="run-", dir=ctx.scratch)
+    with open(os.path.join(work, "f1"), "w", encoding="utf-8") as f:
+        f.write("r1\n\u00e9 r2\n\n")
+    open(os.path.join(work, "f0"), "w").close()
+    recs, rc, err, to, work = run_vi(ctx, ["-s", "-e"], typed, cwd=work, env_extra={"EXINIT": "se wa"})
+    shutil.rmtree(work, True)
+    states = toplevel_states(recs)
+    if states and states[0][1].get("ln") == b"se wa".hex():
+        states = states[1:]
+    n = len(script["steps"])
+    if len(states) < n:
+        return {"field": "incomplete", "stderr": err[-1500:], "states": len(states), "lines": n}
+    got = states[n - 1][0]
+    return {"field": compare(script["steps"][-1]["exp"], got), "expected": script["steps"][-1]["exp"], "got": got}
+
+
 def gen_scripts(ctx, module, profile, nscripts, nsteps, extra_env=None):
     per = max(1, (nscripts + NCPU - 1) // NCPU)
     jobs = []
